@@ -5,6 +5,7 @@ go 1.23
 require (
 	github.com/baidu/go-lib v0.0.0-20200819072111-21df249f5e6a
 	github.com/bfenetworks/bfe v0.0.0
+	github.com/miekg/dns v1.1.29
 	github.com/spaolacci/murmur3 v1.1.0
 	golang.org/x/net v0.0.0-20201021035429-f5854403a974
 	pgregory.net/rapid v1.3.0
@@ -25,7 +26,6 @@ require (
 	github.com/joeshaw/multierror v0.0.0-20140124173710-69b34d4ec901 // indirect
 	github.com/json-iterator/go v1.1.10 // indirect
 	github.com/microcosm-cc/bluemonday v1.0.3 // indirect
-	github.com/miekg/dns v1.1.29 // indirect
 	github.com/modern-go/concurrent v0.0.0-20180228061459-e0a39a4cb421 // indirect
 	github.com/modern-go/reflect2 v0.0.0-20180701023420-4b7aa43c6742 // indirect
 	github.com/opentracing-contrib/go-observer v0.0.0-20170622124052-a52f23424492 // indirect
